@@ -951,7 +951,9 @@ func TestC31(t *testing.T) {
 		return
 	}
 	c31Sweep(t, rec)
-	c31EmitSweep(t, rec)
+	if os.Getenv("VERIF_HPACK_NOSWEEP") == "" { // development aid: show that the generated part finds it on its own
+		c31EmitSweep(t, rec)
+	}
 	for _, in := range corpusInputs("FuzzC31") {
 		c31FuzzOne(t, rec, in)
 	}
